@@ -7,7 +7,7 @@ import ast
 import typing as ty
 
 from ..engine import Analysis
-from ..model import AnalysisError, FuncInfo, ClassInfo, dotted, norm, walk_own, parents, kwarg, is_within
+from ..model import AnalysisError, FuncInfo, ClassInfo, dotted, norm, walk_own, parents, kwarg, is_within, shape, alpha
 from ..cfg import CFG, Node, explore, format_path, token_kind, ANY_E, ANY_B, handler_names
 from ..report import Collector
 from . import prop
@@ -373,6 +373,7 @@ def error_aggregation_rule(A: Analysis, col: Collector, rule: str):
     col.scope(fn.qualname)
     res_calls = [c for c in A.calls(fn) if isinstance(c.func, ast.Attribute) and c.func.attr == "result" and not c.args and "future" in norm(c.func.value)]
     A.anchor("task_future.result() in expand_workflow_async", res_calls)
+    err_vars = set()
     for c in res_calls:
         ok = False
         for p in parents(c):
@@ -380,16 +381,17 @@ def error_aggregation_rule(A: Analysis, col: Collector, rule: str):
                 for h in p.handlers:
                     names = handler_names(h)
                     if names is None or "Exception" in names or "BaseException" in names:
-                        appends = [k for k in ast.walk(h) if isinstance(k, ast.Call) and isinstance(k.func, ast.Attribute) and k.func.attr == "append" and norm(k.func.value) == "errors"]
+                        appends = [k for k in ast.walk(h) if isinstance(k, ast.Call) and isinstance(k.func, ast.Attribute) and k.func.attr == "append" and isinstance(k.func.value, ast.Name)]
                         falls = not any(isinstance(k, ast.Raise) for k in ast.walk(h))
                         if appends and falls:
                             ok = True
+                            err_vars |= {k.func.value.id for k in appends}
             if p is fn.node:
                 break
         if ok:
-            col.ok(rule, "every completed future is result()-ed inside `except Exception` that appends to `errors` and continues the loop", A.loc(c))
+            col.ok(rule, "every completed future is result()-ed inside `except Exception` that appends to the error list and continues the loop", A.loc(c))
         else:
-            col.fail(rule, fn.qualname, "future-error-not-collected", "the result() of a completed job future is not collected into `errors` by a handler that lets the loop continue: the first failure aborts scheduling", A.loc(c))
+            col.fail(rule, fn.qualname, "future-error-not-collected", "the result() of a completed job future is not collected into the error list by a handler that lets the loop continue: the first failure aborts scheduling", A.loc(c))
     # the loop over completed futures covers all of them
     loops = [n for n in walk_own(fn.node) if isinstance(n, ast.For) and any(is_within(c, n) for c in res_calls)]
     for lp in loops:
@@ -402,11 +404,12 @@ def error_aggregation_rule(A: Analysis, col: Collector, rule: str):
     for n in walk_own(fn.node):
         if isinstance(n, ast.Try) and n.finalbody:
             for s in n.finalbody:
-                if isinstance(s, ast.If) and norm(s.test) == "errors" and any(isinstance(k, ast.Raise) for k in ast.walk(s)):
-                    msg_uses_all = any(isinstance(k, ast.Call) and isinstance(k.func, ast.Attribute) and k.func.attr == "join" and k.args and norm(k.args[0]) == "errors" for k in ast.walk(s))
+                if isinstance(s, ast.If) and isinstance(s.test, ast.Name) and s.test.id in err_vars and any(isinstance(k, ast.Raise) for k in ast.walk(s)):
+                    ev = s.test.id
+                    msg_uses_all = any(isinstance(k, ast.Call) and isinstance(k.func, ast.Attribute) and k.func.attr == "join" and k.args and norm(k.args[0]) == ev for k in ast.walk(s))
                     raised = True
                     if msg_uses_all:
-                        col.ok(rule, "finally: `if errors: raise RuntimeError(...join(errors)...)` names every collected failure", A.loc(s))
+                        col.ok(rule, "finally: `if <errors>: raise RuntimeError(...join(<errors>)...)` names every collected failure", A.loc(s))
                     else:
                         col.fail(rule, fn.qualname, "error-message-not-all-errors", "the final error does not include every collected error", A.loc(s))
     if not raised:
@@ -418,7 +421,7 @@ def error_aggregation_rule(A: Analysis, col: Collector, rule: str):
     for n in walk_own(fj.node):
         if isinstance(n, ast.If):
             t = n.test.value if isinstance(n.test, ast.NamedExpr) else n.test
-            if isinstance(t, ast.ListComp) and "exec_graph.nodes" in norm(t.generators[0].iter) and t.generators[0].ifs and "errored" in norm(t.generators[0].ifs[0]):
+            if isinstance(t, ast.ListComp) and isinstance(t.generators[0].iter, ast.Attribute) and t.generators[0].iter.attr == "nodes" and t.generators[0].ifs and "errored" in norm(t.generators[0].ifs[0]):
                 if any(isinstance(k, ast.Raise) for k in ast.walk(n)):
                     found = True
                     col.ok(rule, "WorkflowOutputs._from_job raises when any node of the execution graph has errored jobs", A.loc(n))
@@ -450,12 +453,22 @@ def graph_edges_rule(A: Analysis, col: Collector, rule: str):
     col.scope(fn.qualname)
     adds = [c for c in A.calls(fn) if isinstance(c.func, ast.Attribute) and c.func.attr == "add_edges"]
     A.anchor("graph.add_edges in _create_graph", adds)
+    nodes_param = fn.params()[1].arg if len(fn.params()) > 1 else "nodes"
     for c in adds:
         loops = [p for p in parents(c) if isinstance(p, ast.For)]
         conds = [p for p in parents(c) if isinstance(p, ast.If)]
         over_fields = any(isinstance(l.iter, ast.Call) and (dotted(l.iter.func) or "").endswith("get_fields") for l in loops)
-        over_nodes = any(isinstance(l.iter, ast.Name) and l.iter.id == "nodes" for l in loops)
+        node_loops = [l for l in loops if isinstance(l.iter, ast.Name) and l.iter.id == nodes_param and isinstance(l.target, ast.Name)]
+        over_nodes = bool(node_loops)
+        node_var = node_loops[0].target.id if node_loops else "?"
+        gvar = norm(c.func.value)
         lazy_guard = any("LazyOutField" in norm(i.test) and "isinstance" in norm(i.test) for i in conds)
+        # the variable tested to be a LazyOutField
+        lf_var = None
+        for i in conds:
+            for k in ast.walk(i.test):
+                if isinstance(k, ast.Call) and dotted(k.func) == "isinstance" and len(k.args) == 2 and "LazyOutField" in norm(k.args[1]) and isinstance(k.args[0], ast.Name):
+                    lf_var = k.args[0].id
         other = []
         for i in conds:
             conj = i.test.values if isinstance(i.test, ast.BoolOp) and isinstance(i.test.op, ast.And) else [i.test]
@@ -463,7 +476,7 @@ def graph_edges_rule(A: Analysis, col: Collector, rule: str):
                 t_ = norm(cj, 80)
                 if "LazyOutField" in t_ and "isinstance" in t_:
                     continue
-                if t_.endswith("not in graph.edges"):
+                if t_.endswith(f"not in {gvar}.edges"):
                     continue
                 other.append(t_)
         if over_fields and over_nodes and lazy_guard and not other:
@@ -480,10 +493,10 @@ def graph_edges_rule(A: Analysis, col: Collector, rule: str):
                 what.append("extra-condition")
             col.fail(rule, fn.qualname, "edge-creation:" + "+".join(what), f"edges are not created for every lazy connection ({', '.join(what)}; extra conditions {other})", A.loc(c))
         # the edge is (upstream node, this node)
-        if c.args and isinstance(c.args[0], ast.Tuple) and len(c.args[0].elts) == 2 and "lf._node" in norm(c.args[0].elts[0]) and norm(c.args[0].elts[1]) == "node":
+        if c.args and isinstance(c.args[0], ast.Tuple) and len(c.args[0].elts) == 2 and lf_var and f"{lf_var}._node" in norm(c.args[0].elts[0]) and norm(c.args[0].elts[1]) == node_var:
             col.ok(rule, "edge direction: (node producing the lazy field, consuming node)", A.loc(c))
         else:
-            col.fail(rule, fn.qualname, f"edge-direction:{norm(c.args[0], 40) if c.args else ''}", "the edge added for a lazy connection is not (upstream, consumer)", A.loc(c))
+            col.fail(rule, fn.qualname, "edge-direction:" + (shape(c.args[0], 40) if c.args else ""), "the edge added for a lazy connection is not (upstream, consumer)", A.loc(c))
     # Submitter.get_runnable_tasks: stops at nodes whose predecessors have not started
     gr = A.func(f"{SUBMITTER}.get_runnable_tasks")
     col.scope(gr.qualname)
@@ -693,33 +706,24 @@ def check_c16(A: Analysis, col: Collector):
 # loops whose progress argument is not one of the algorithmic classes: audited, keyed
 # by function + the names the loop condition tests
 AUDITED_LOOPS = {
-    ("pydra.engine.submitter.Submitter.expand_workflow", "exec_graph+n+tasks"): "runs-to-completion: every listed job is run synchronously to completion or raises (debug worker re-raises task errors); a round without runnable jobs and unfinished nodes can only repeat if results vanish from disk (assumption)",
-    ("pydra.engine.workflow.Workflow.under_construction", "frame"): "structural descent over the finite call stack (frame = frame.f_back)",
-    ("pydra.utils.typing.TypeParser.strip_splits", "StateArray+cls+type_"): "structural descent over a finite type expression (type_ = item type of type_)",
-    ("pydra.engine.job.PydraFileLock.__aenter__", "acquired_lock"): "external wait: polls a lock held by another live process (liveness of the holder is filelock's dead-PID check -- assumption)",
+    ("pydra.engine.submitter.Submitter.expand_workflow", "_ or any((not _.done for _ in _.nodes))"): "runs-to-completion: every listed job is run synchronously to completion or raises (debug worker re-raises task errors); a round without runnable jobs and unfinished nodes can only repeat if results vanish from disk (assumption)",
+    ("pydra.engine.workflow.Workflow.under_construction", "_"): "structural descent over the finite call stack (frame = frame.f_back)",
+    ("pydra.utils.typing.TypeParser.strip_splits", "cls.is_subclass(_, _) and (not cls.is_subclass(_, str))"): "structural descent over a finite type expression (type_ = item type of type_)",
+    ("pydra.engine.job.PydraFileLock.__aenter__", "not _"): "external wait: polls a lock held by another live process (liveness of the holder is filelock's dead-PID check -- assumption)",
     ("pydra.workers.base.read_stream_and_display", "True"): "external wait: reads a subprocess stream until EOF",
     ("pydra.workers.slurm.SlurmWorker.run", "True"): "external wait: polls the scheduler until the job leaves the queue",
     ("pydra.workers.sge.SgeWorker.run", "True"): "external wait: polls the scheduler",
-    ("pydra.workers.sge.SgeWorker.run", "self+tasks_to_run+threads_requested"): "external wait: waits for scheduler slots",
-    ("pydra.workers.sge.SgeWorker.get_output_by_job_pkl", "jobid"): "external wait: scheduler bookkeeping",
-    ("pydra.workers.sge.SgeWorker.get_output_by_job_pkl", "job_output"): "external wait: scheduler bookkeeping",
+    ("pydra.workers.sge.SgeWorker.run", "self.threads_used > self.max_threads - _ * len(_)"): "external wait: waits for scheduler slots",
+    ("pydra.workers.sge.SgeWorker.get_output_by_job_pkl", "_ is None"): "external wait: scheduler bookkeeping",
     ("pydra.workers.sge.SgeWorker._submit_job", "True"): "external wait: polls qstat/qacct",
-    ("pydra.utils.profiler.ResourceMonitor.run", "self"): "monitor thread: runs until stop() sets the event",
+    ("pydra.utils.profiler.ResourceMonitor.run", "not self._event.is_set()"): "monitor thread: runs until stop() sets the event",
 }
 
 
 def _cond_names(test: ast.AST) -> str:
-    """the variables a loop condition tests (builtins and attribute names excluded):
-    stable under re-spelling of the condition, different for a different loop."""
-    import builtins
-
-    names = set()
-    for n in ast.walk(test):
-        if isinstance(n, ast.Name) and not hasattr(builtins, n.id):
-            names.add(n.id)
-    if not names:
-        return norm(test, 20)
-    return "+".join(sorted(names))
+    """shape of a loop condition with every variable name abstracted: stable under renaming
+    of locals and re-formatting, different for a differently built condition."""
+    return shape(test, 120)
 
 
 def classify_loop(A: Analysis, fn: FuncInfo, loop: ast.While) -> tuple[str, str] | None:
